@@ -166,6 +166,9 @@ func main() {
 			fmt.Sscanf(n, "%d", &k)
 			args[0] = core.AVal{K: core.ASlice, Path: "p0", Lo: 0, Len: k, NonNil: true}
 		}
+		if n := os.Getenv("VERIF_LOOPBOUND"); n != "" {
+			fmt.Sscanf(n, "%d", &ex.LoopBound)
+		}
 		if os.Getenv("VERIF_RECORD") != "" {
 			pre := os.Getenv("VERIF_RECORD")
 			ex.OnCall = func(ev *core.AEvent, _ *core.AMem) (core.AVal, bool) {
